@@ -10,6 +10,8 @@ pub(crate) trait Src {
     fn u64(&mut self) -> u64;
     fn usize(&mut self) -> usize { self.u64() as usize }
     fn bool(&mut self) -> bool;
+    /// a value in 0..n (n <= 255)
+    fn choose(&mut self, n: u8) -> u8;
 }
 
 #[cfg(kani)]
@@ -21,6 +23,7 @@ impl Src for KaniSrc {
     fn u32(&mut self) -> u32 { kani::any() }
     fn u64(&mut self) -> u64 { kani::any() }
     fn bool(&mut self) -> bool { kani::any() }
+    fn choose(&mut self, n: u8) -> u8 { let v: u8 = kani::any(); kani::assume(v < n); v }
 }
 
 #[cfg(pearl_verif)]
@@ -66,6 +69,40 @@ impl Src for ReplaySrc {
     fn u32(&mut self) -> u32 { let v = self.take(4); u32::from_le_bytes([v[0], v[1], v[2], v[3]]) }
     fn u64(&mut self) -> u64 { let v = self.take(8); let mut a = [0u8; 8]; a.copy_from_slice(&v); u64::from_le_bytes(a) }
     fn bool(&mut self) -> bool { self.take(1)[0] != 0 }
+    fn choose(&mut self, n: u8) -> u8 { self.take(1)[0] % n }
+}
+
+/// Exhaustive enumeration of all choice sequences (native bounded stand-in, NOT a proof): an
+/// odometer over the `choose`/`bool` calls of one run; `advance` moves to the next sequence.
+#[cfg(pearl_verif)]
+pub(crate) struct EnumSrc { digits: Vec<(u8, u8)>, pos: usize }
+#[cfg(pearl_verif)]
+#[allow(dead_code)]
+impl EnumSrc {
+    pub(crate) fn new() -> Self { EnumSrc { digits: Vec::new(), pos: 0 } }
+    pub(crate) fn trace(&self) -> Vec<Vec<u8>> { self.digits[..self.pos].iter().map(|d| vec![d.0]).collect() }
+    /// prepares the next run; false when every sequence has been tried
+    pub(crate) fn advance(&mut self) -> bool {
+        self.digits.truncate(self.pos);
+        while let Some((v, n)) = self.digits.pop() {
+            if v + 1 < n { self.digits.push((v + 1, n)); self.pos = 0; return true; }
+        }
+        false
+    }
+}
+#[cfg(pearl_verif)]
+impl Src for EnumSrc {
+    fn u8(&mut self) -> u8 { self.choose(255) }
+    fn u16(&mut self) -> u16 { self.choose(255) as u16 }
+    fn u32(&mut self) -> u32 { self.choose(255) as u32 }
+    fn u64(&mut self) -> u64 { self.choose(255) as u64 }
+    fn bool(&mut self) -> bool { self.choose(2) == 1 }
+    fn choose(&mut self, n: u8) -> u8 {
+        if self.pos == self.digits.len() { self.digits.push((0, n)); }
+        let v = self.digits[self.pos].0;
+        self.pos += 1;
+        v
+    }
 }
 
 /// replay-mode assertion: prints a marker instead of aborting the test process silently
